@@ -305,7 +305,7 @@ SPEC = {
              'arbitrary (internal, repeated, shared) gates of a generated host circuit. Oracle: bit-sliced integer product of the '
              'reference operand vectors == decoded result in the requested endianness, documented result length, host '
              'discipline. Non-trivial: both widths >= 2.'
-             ' Added during the build: products past 256 bits, one number being a part of the other gate for gate, an operand gate labelled like the library's own placeholder, squarer widths 48-51, 53, 55, 58 (thorough 47-61, 63-65, 96, 97, 101, 103), lopsided shapes, host squares of 48-55 bits, the empty label on an operand of the deep (Karatsuba / split) paths, generators asked twice, predicted labels, refused preludes, constant-zero runs.'),
+             ' Added during the build: products past 256 bits, one number being a part of the other gate for gate, an operand gate labelled like the placeholder the library uses itself, squarer widths 48-51, 53, 55, 58 (thorough 47-61, 63-65, 96, 97, 101, 103), lopsided shapes, host squares of 48-55 bits, the empty label on an operand of the deep (Karatsuba / split) paths, generators asked twice, predicted labels, refused preludes, constant-zero runs.'),
     'assumptions': ['reference tables from vlib/refsem.py; wide circuits only on sampled rows'],
     'subs': [Sub('host', host_cases, arith.with_refused_prelude(arith.with_label_collisions(check_host)), {'quick': 1200, 'thorough': 75000})],
     'sharded': {'width_sweep': sweep},
